@@ -258,6 +258,14 @@ impl Gen {
       c.pre.push(format!("fill {h} {b}"));
       h += 1;
     }
+    // sometimes the cursor was moved back by a relative rewind before the threads start (it must stop at the data area)
+    if self.rng.chance(12) {
+      let n = self.rng.range(1, 64);
+      let back = n + self.rng.range(0, 48);
+      c.pre.push(format!("alloc_bytes {h} {n}"));
+      c.pre.push(format!("detach {h}"));
+      c.pre.push(format!("rewind current -{back}"));
+    }
     let nt = self.rng.range(2, 4) as usize;
     let mut est = Vec::new();
     for tid in 1..=nt {
